@@ -9,6 +9,7 @@ CONSTANTS
   Classes = {"Q"}
   Depth = 2
   Sample = FALSE
+  Paths = {"small", "large"}
 INIT Init
 NEXT Next
 INVARIANT Emit
